@@ -110,10 +110,10 @@ def check_elitism(h: Harness):
         values = [rng.randint(-4, 4) for _ in range(n)]
         elitism_case(h, values, shape, rng.randint(0, n + 1), rng.choice(FORMS), rng.choice(["max", "min", "multi", "multi-min"]), "random")
     # a few elites out of a LARGE population (the default step keeps 5%), many ties at the cut
-    for _ in range(h.n(80, 800)):
+    for _ in range(h.n(400, 3000)):
         n = rng.randint(20, 60)
         k = rng.randint(2, max(2, n // 10))
-        values = [rng.randint(0, 4) for _ in range(n)]
+        values = [rng.randint(0, rng.choice([2, 3, 4])) for _ in range(n)]
         elitism_case(h, values, list(range(n)), k, rng.choice(FORMS), rng.choice(["max", "min", "multi", "multi-min"]), "large")
     # sort_population: stable, best first
     for _ in range(h.n(100, 1000)):
